@@ -796,8 +796,33 @@ static void configure(bxdecay0::decay0_generator & g, const GenCfg & c)
   }
 }
 
+// "GAREJ": a dbd_gA object driven directly with the rejection shooter on the shipped mock table Test/g0 (the shooter that evaluates
+// the GSL 2-d interpolator; decay0_generator itself only uses the inverse-transform shooter)
+static std::vector<std::string> ga_rejection_shots(uint64_t seed, int nev)
+{
+  std::vector<std::string> out;
+  try {
+    bxdecay0::dbd_gA g;
+    g.set_dataset_version(".");
+    g.set_nuclide("Test");
+    g.set_process(bxdecay0::dbd_gA::PROCESS_G0);
+    g.set_shooting(bxdecay0::dbd_gA::SHOOTING_REJECTION);
+    g.initialize();
+    vh::stream prng(seed);
+    for (int i = 0; i < nev * 20; i++) {
+      double e1 = 0, e2 = 0;
+      g.shoot_e1_e2(prng, e1, e2);
+      out.push_back(vh::hexd(e1) + ":" + vh::hexd(e2));
+    }
+  } catch (std::exception & e) {
+    out.push_back(std::string("INIT-FAILED ") + e.what());
+  }
+  return out;
+}
+
 static std::vector<std::string> init_and_shoot(const GenCfg & c, uint64_t seed, int nev)
 {
+  if (c.iso == "GAREJ") return ga_rejection_shots(seed, nev);
   std::vector<std::string> out;
   bxdecay0::decay0_generator g;
   configure(g, c);
